@@ -27,10 +27,10 @@ func init() {
 }
 
 func runC21(c *engine.Ctx) {
-	r1 := c.Rule("R1", "exactly workerCount workers are spawned, only in Startup; one Startup call per queue", 3)
+	r1 := c.Rule("R1", "exactly workerCount workers are spawned, only in Startup; one Startup call per queue", 2)
 	r2 := c.Rule("R2", "ExecuteTask is invoked only by the worker, synchronously", 1)
-	r3 := c.Rule("R3", "limit options are wired to the right queue, with the right executor; per-peer limit only when > 0", 5)
-	r4 := c.Rule("R4", "every ExecuteTask path terminates the worker or releases the task exactly once", 4)
+	r3 := c.Rule("R3", "limit options are wired to the right queue, with the right executor; per-peer limit only when > 0", 3)
+	r4 := c.Rule("R4", "every ExecuteTask path terminates the worker or releases the task exactly once", 2)
 
 	tq := c.P.NamedType("taskqueue", "WorkerTaskQueue")
 	if tq == nil {
